@@ -223,6 +223,16 @@ theorem manifest_fields_as_published :
     Gen.manifestFields.map (fun f => (f.2.1, f.2.2.1)) =
       [("k", true), ("kw", false), ("wfk", false), ("cph", false), ("np", false)] := by decide
 
+/-- The key-name decisions and the manifest marshalling the model implements are the ones
+    `factgen_c01` found in `Encrypt` / `Decrypt` / `MarshalJSON`. -/
+theorem keyname_rules_as_modelled :
+    Gen.encryptKeyNameRule = ["DecryptionKeyName", "OmitKeyName→empty", "empty→KeyName"] ∧
+    Gen.decryptKeyNameRule = ["opts.KeyName", "empty→manifest.KeyName", "empty→ErrDecryptionKeyMissing"] ∧
+    Gen.keyAlgorithmMarshal = "strconv.Itoa(a.ID())" ∧ Gen.cipherMarshal = "strconv.Itoa(c.ID())" ∧
+    Gen.headerMessageParts = ["SchemeName", "manifest", ""] ∧ Gen.headerJoin = 10 ∧
+    Gen.macEncoding = "base64.StdEncoding" ∧ Gen.headerTerminator = 10 ∧
+    Gen.cipherConstructors = [("AES-GCM", "cipher.NewGCM(aes.NewCipher)"), ("CHACHA20-POLY1305", "chacha20poly1305.New")] := by decide
+
 /-- Constants of the published format. -/
 theorem constants_as_published :
     Gen.schemeName = "dapr.io/enc/v1" ∧ Gen.segmentSize = 65536 ∧ Gen.segmentOverhead = 16 ∧
